@@ -1,0 +1,8 @@
+//go:build verif
+
+package pipeline
+
+// Verification-only exports (build tag `verif`). Nothing here is compiled into normal builds.
+
+// VerifOffsetsCurrent returns the current offset carried by an Offsets value.
+func VerifOffsetsCurrent(o Offsets) int64 { return o.current }
